@@ -137,6 +137,70 @@ def run_failure(name, spec, seed, keep_debug=False):
     return w
 
 
+def cli_logging(v):
+    """pyikev2.py (the command line entry point) decides what 'the default log level' is: its top-level code is executed in-process (run_path) with a
+    configuration file, once without and once with --verbose; main_loop and netlink are stubbed.  Without --verbose records below INFO must not
+    reach the log stream; with it they do (that is where key material goes, as the help text of the option says)."""
+    import io
+    import logging
+    import os
+    import runpy
+    import signal
+    import sys
+    import tempfile
+    import yaml
+    import ikesacontroller
+    import xfrm
+    conf = {'c': wd.connection_dict('A', 'B')}
+    tmp = tempfile.mkdtemp(prefix='verif-cli-')
+    path = os.path.join(tmp, 'conf.yaml')
+    yaml.safe_dump(conf, open(path, 'w'))
+    root = logging.getLogger()
+    saved = (list(root.handlers), root.level, sys.argv, sys.stderr, ikesacontroller.IkeSaController.main_loop, xfrm.Xfrm.__dict__.get('send_recv'), signal.getsignal(signal.SIGINT),
+             getattr(logging, 'indent', None))
+    results = {}
+    try:
+        for verbose in (False, True):
+            for h in list(root.handlers):
+                root.removeHandler(h)
+            root.setLevel(logging.WARNING)                 # the interpreter's default, as in a fresh process
+            stream = io.StringIO()
+            sys.stderr = stream
+            sys.argv = ['pyikev2.py', '-c', path, '-i', wd.addr_of('A')] + (['--verbose'] if verbose else [])
+            ikesacontroller.IkeSaController.main_loop = lambda self: None
+            xfrm.Xfrm.send_recv = classmethod(lambda cls, *a, **k: None)
+            try:
+                runpy.run_path(os.path.join(common.REPO, 'pyikev2.py'), run_name='__main__')
+            except SystemExit as ex:
+                raise common.MachineryError(f'pyikev2.py exited ({ex.code}) with a valid configuration: {stream.getvalue()[-300:]}')
+            logging.debug('VERIF-DEBUG-MARKER')
+            logging.info('VERIF-INFO-MARKER')
+            text = stream.getvalue()
+            results[verbose] = ('VERIF-DEBUG-MARKER' in text, 'VERIF-INFO-MARKER' in text, logging.getLevelName(root.getEffectiveLevel()))
+    finally:
+        for h in list(root.handlers):
+            root.removeHandler(h)
+        for h in saved[0]:
+            root.addHandler(h)
+        root.setLevel(saved[1])
+        sys.argv, sys.stderr = saved[2], saved[3]
+        ikesacontroller.IkeSaController.main_loop = saved[4]
+        if saved[5] is not None:
+            xfrm.Xfrm.send_recv = saved[5]
+        elif 'send_recv' in xfrm.Xfrm.__dict__:
+            del xfrm.Xfrm.send_recv
+        signal.signal(signal.SIGINT, saved[6])
+        logging.indent = saved[7]
+        import shutil
+        shutil.rmtree(tmp, ignore_errors=True)
+    if results[False][0] or not results[False][1]:
+        v.violation(f'pyikev2.py without --verbose: records below INFO reach the log / INFO does not (debug shown={results[False][0]}, info shown={results[False][1]}, '
+                    f'effective level {results[False][2]}) - key material is logged at DEBUG by design', {'results': str(results)}, signature={'component': 'cli:default-level'})
+    if not results[True][0]:
+        v.violation('pyikev2.py --verbose does not enable DEBUG records', {'results': str(results)}, signature={'component': 'cli:verbose'})
+    return {('verbose' if k else 'default'): {'debug_records_shown': r[0], 'info_records_shown': r[1], 'effective_level': r[2]} for k, r in results.items()}
+
+
 def log_sites():
     """Every statement of the implementation that logs at INFO level or above: (file, first line, last line, level)."""
     import ast
@@ -206,6 +270,7 @@ def run(tier, replay=None):
     dbg_hits, ns, _ = scan(w, [(10, t, None, 0) for t in w.log_debug] + list(w.log_info))
     if len(dbg_hits) < 5:
         raise common.MachineryError(f'positive control failed: only {len(dbg_hits)} of {ns} secrets visible in a verbose (DEBUG) run - the detector does not see the material')
+    v.coverage['command_line_log_level'] = cli_logging(v)
     # which of the INFO+ logging statements of the implementation did these histories execute?  (a monitor only sees what runs)
     sites = log_sites()
     hit = [(f, a, b, lvl) for f, a, b, lvl in sites if any(ff == f and a <= ln <= b for ff, ln in wd.LOG_SITES)]
